@@ -3,7 +3,9 @@ package c09
 import (
 	"fmt"
 	"sort"
+	"strconv"
 	"strings"
+	"unicode"
 
 	"github.com/tsawler/tabula/text"
 
@@ -22,6 +24,10 @@ type Frag struct {
 	H   int    `json:"h"`
 	FS  int    `json:"fs"`
 	RTL bool   `json:"rtl,omitempty"`
+	// Neu: the fragment has no strong-direction character (digits, punctuation,
+	// currency signs, bullets): its direction is Neutral (UAX #9 classes EN, ES,
+	// ET, CS, ON), whatever line it stands on.
+	Neu bool `json:"neu,omitempty"`
 }
 
 // Page is a synthetic page: the quantifier of C09.
@@ -50,6 +56,8 @@ func toLayout(p Page) []text.TextFragment {
 		dir := text.LTR
 		if f.RTL {
 			dir = text.RTL
+		} else if f.Neu {
+			dir = text.Neutral
 		}
 		out[i] = text.TextFragment{Text: f.T, X: float64(f.X) / d, Y: float64(f.Y) / d, Width: float64(f.W) / d,
 			Height: float64(f.H) / d, FontSize: float64(f.FS) / d, FontName: fmt.Sprintf("f%d", f.ID), Direction: dir}
@@ -116,20 +124,69 @@ func arabicToken(r *hx.Rng, id int) string {
 	return sb.String()
 }
 
+// neutralToken: a fragment text without any strong-direction character, of the
+// kinds that stand as separate fragments on real pages: numbers (years,
+// amounts), one punctuation mark, a currency sign, or a short ASCII compound
+// (time, bracketed number, price, percentage, range).
+func neutralToken(r *hx.Rng, id int) string {
+	num := func() string {
+		switch r.Intn(3) {
+		case 0:
+			return strconv.Itoa(r.Range(1990, 2030))
+		case 1:
+			return strconv.Itoa(r.Range(0, 999))
+		}
+		return strconv.Itoa(id)
+	}
+	switch r.Intn(8) {
+	case 0, 1, 2:
+		return num()
+	case 3, 4:
+		return []string{":", "-", "(", ")", ",", ".", "/", "%", "+", "=", "*", "#", "!", "?", ";"}[r.Intn(15)]
+	case 5:
+		return []string{"$", "\u20aa", "\u20ac", "\u00a3"}[r.Intn(4)]
+	}
+	switch r.Intn(6) {
+	case 0:
+		return fmt.Sprintf("%d:%02d", r.Range(0, 23), r.Range(0, 59))
+	case 1:
+		return "(" + num() + ")"
+	case 2:
+		return "$" + num()
+	case 3:
+		return fmt.Sprintf("%d.%d%%", r.Range(0, 99), r.Intn(10))
+	case 4:
+		return num() + "-" + num()
+	}
+	return num() + "/" + strconv.Itoa(r.Range(1, 31))
+}
+
 // ---- page builder -------------------------------------------------------------------
 
 type builder struct {
 	r    *hx.Rng
 	p    Page
 	tags map[string]bool
-	tok  int // token counter: every generated word is distinct
+	tok  int  // token counter: every generated word is distinct
+	bidi bool // bidi page: columns also carry mixed-direction lines (bidiBlock)
 }
 
 func (b *builder) tag(t string) { b.tags[t] = true }
 
+// noStrongChar: the text has no letter at all (list markers "-", "1.", "•",
+// numbers, punctuation, currency signs): a direction-neutral fragment.
+func noStrongChar(t string) bool {
+	for _, c := range t {
+		if unicode.IsLetter(c) {
+			return false
+		}
+	}
+	return true
+}
+
 func (b *builder) add(t string, x, y, w, h, fs int, rtl bool) int {
 	id := len(b.p.F)
-	b.p.F = append(b.p.F, Frag{ID: id, T: t, X: x, Y: y, W: w, H: h, FS: fs, RTL: rtl})
+	b.p.F = append(b.p.F, Frag{ID: id, T: t, X: x, Y: y, W: w, H: h, FS: fs, RTL: rtl, Neu: !rtl && noStrongChar(t)})
 	return id
 }
 
@@ -255,6 +312,145 @@ func (b *builder) emit(t string, x, y, w, fs int, o lineOpt) {
 	}
 }
 
+// ---- mixed-direction lines ----------------------------------------------------------
+
+const (
+	dirLTR = iota
+	dirRTL
+	dirNeu
+)
+
+// bidiLine puts one line of 2..8 fragments on the baseline y: words of the
+// dominant direction (Hebrew/Arabic for a right-to-left line, Latin for a
+// left-to-right one) in strict majority over words of the other direction,
+// plus separate direction-neutral fragments (numbers, punctuation, currency
+// signs). The logical sequence runs from the right edge leftwards on a
+// right-to-left line and from the left edge rightwards otherwise. The
+// fragments enter the stream in visual left-to-right order (what most
+// producers write for shaped text), in logical order, or in random order.
+func (b *builder) bidiLine(x0, y, width, fs, script int, domRTL, chars bool) {
+	r := b.r
+	cw := fs / 2
+	n := r.Range(2, 8)
+	nNeu := 0
+	if r.Chance(5, 6) {
+		nNeu = r.Range(1, n-1)
+	}
+	rest := n - nNeu
+	nOth := r.Intn((rest-1)/2 + 1) // other-direction words: fewer than the dominant ones
+	kinds := make([]int, 0, n)
+	dom, oth := dirLTR, dirRTL
+	if domRTL {
+		dom, oth = dirRTL, dirLTR
+	}
+	for i := 0; i < n; i++ {
+		switch {
+		case i < nNeu:
+			kinds = append(kinds, dirNeu)
+		case i < nNeu+nOth:
+			kinds = append(kinds, oth)
+		default:
+			kinds = append(kinds, dom)
+		}
+	}
+	hx.Shuffle(r, kinds)
+
+	type piece struct {
+		t        string
+		x, w, kd int
+	}
+	var ps []piece
+	pos := 0 // distance from the line's starting edge
+	cnt := [3]int{}
+	for i, kd := range kinds {
+		b.tok++
+		var t string
+		switch kd {
+		case dirNeu:
+			t = neutralToken(r, b.tok)
+		case dirRTL:
+			if script == 2 {
+				t = arabicToken(r, b.tok)
+			} else {
+				t = hebrewToken(r, b.tok)
+			}
+		default:
+			t = latinToken(r, b.tok, 2)
+		}
+		w := runeLen(t) * cw
+		gap := 0
+		if i > 0 {
+			gap = cw
+			if (kd == dirNeu || kinds[i-1] == dirNeu) && r.Chance(1, 3) {
+				gap = r.Intn(2) * (cw / 2) // a mark set close to its neighbour
+			}
+		}
+		if i >= 2 && pos+gap+w > width {
+			break
+		}
+		pos += gap
+		x := x0 + pos
+		if domRTL {
+			x = x0 + width - pos - w
+		}
+		pos += w
+		cnt[kd]++
+		if !chars {
+			ps = append(ps, piece{t, x, w, kd})
+			continue
+		}
+		rs := []rune(t)
+		for j, c := range rs { // characters in reading order; a right-to-left word runs leftwards
+			cx := x + j*cw
+			if kd == dirRTL {
+				cx = x + (len(rs)-1-j)*cw
+			}
+			ps = append(ps, piece{string(c), cx, cw, kd})
+		}
+	}
+	switch {
+	case domRTL && cnt[dirNeu] > 0 && cnt[dirRTL] > cnt[dirLTR]:
+		b.tag("rtl-line-with-neutral")
+	case !domRTL && cnt[dirNeu] > 0:
+		b.tag("ltr-line-with-neutral")
+	}
+	if cnt[oth] > 0 {
+		if domRTL {
+			b.tag("rtl-line-with-ltr-word")
+		} else {
+			b.tag("ltr-line-with-rtl-word")
+		}
+	}
+	switch r.Intn(6) {
+	case 0, 1, 2:
+		sort.SliceStable(ps, func(i, j int) bool { return ps[i].x < ps[j].x })
+		b.tag("bidi-emit-visual")
+	case 3, 4:
+		b.tag("bidi-emit-logical")
+	default:
+		hx.Shuffle(r, ps)
+		b.tag("bidi-emit-random")
+	}
+	for _, p := range ps {
+		id := b.add(p.t, p.x, y, p.w, fs, fs, p.kd == dirRTL)
+		b.p.F[id].Neu = p.kd == dirNeu
+	}
+}
+
+// bidiBlock: 1-4 consecutive mixed-direction lines of one script.
+func (b *builder) bidiBlock(x0, width, y, yBottom, fs, lead int, chars bool) int {
+	r := b.r
+	n := r.Range(1, 4)
+	script := r.Range(1, 2)
+	domRTL := r.Chance(3, 4)
+	for i := 0; i < n && y > yBottom; i++ {
+		b.bidiLine(x0, y, width, fs, script, domRTL, chars)
+		y -= lead
+	}
+	b.tag("bidi-lines")
+	return y - r.Range(4, 10)
+}
+
 // column fills one column from yTop down to yBottom with headings, paragraphs,
 // lists, single-word lines and short last lines.
 func (b *builder) column(x0, width, yTop, yBottom, fs int, chars bool) {
@@ -268,6 +464,10 @@ func (b *builder) column(x0, width, yTop, yBottom, fs int, chars bool) {
 	}
 	y := yTop
 	for y > yBottom {
+		if b.bidi && r.Chance(2, 5) { // (no draw on a standard page: its stream is unchanged)
+			y = b.bidiBlock(x0, width, y, yBottom, fs, lead, chars)
+			continue
+		}
 		switch k := r.Intn(10); {
 		case k == 0: // heading of larger size
 			hfs := fs + 2*r.Range(2, 5)
@@ -331,8 +531,17 @@ func (b *builder) column(x0, width, yTop, yBottom, fs int, chars bool) {
 }
 
 // genPage draws one synthetic page.
-func genPage(r *hx.Rng) Page {
-	b := &builder{r: r, tags: map[string]bool{}}
+func genPage(r *hx.Rng) Page { return genPageKind(r, "") }
+
+// kindBidi pages are standard pages whose columns, between the left-to-right
+// paragraphs, headings and lists, also carry mixed-direction lines.
+const kindBidi = "bidi"
+
+func genPageKind(r *hx.Rng, kind string) Page {
+	b := &builder{r: r, tags: map[string]bool{}, bidi: kind == kindBidi}
+	if b.bidi {
+		b.tag("bidi-page")
+	}
 	W, H := 612, 792
 	if r.Chance(1, 5) {
 		W, H = 10*r.Range(40, 90), 10*r.Range(50, 100)
@@ -349,10 +558,18 @@ func genPage(r *hx.Rng) Page {
 	if chars {
 		b.tag("char-level")
 	}
+	small := b.bidi && r.Chance(1, 3) // a few lines in one column: the failing input fits into the replay file
+	if small {
+		ncols = 1
+	}
 	b.tag(fmt.Sprintf("cols-%d", ncols))
 	colW := (W - 2*margin - (ncols-1)*gutter) / ncols
 	top := H - margin - fs
 	bottom := margin + r.Range(0, H/2)
+	if small {
+		bottom = top - fs*r.Range(3, 12)
+		b.tag("bidi-small")
+	}
 	if r.Chance(1, 3) { // spanning title across the columns
 		tfs := fs + 2*r.Range(3, 7)
 		top -= tfs - fs
